@@ -120,6 +120,12 @@ fn build(sites: &[Site], exit_mode: u8, mode: RunMode, real_msg: &str) -> Built 
         let (line, msg) = site_line(i, s, real_msg);
         let mut block: Vec<String> = vec![];
         let pad = |b: &mut Vec<String>| {
+            if s.blanks == 3 {
+                // statements that touch the error record and the mode without being errors
+                b.push(format!("set_error \"noise {}\"", i));
+                b.push("qq = exit_on_error".into());
+                return;
+            }
             for k in 0..s.blanks {
                 b.push(if k == 0 { String::new() } else { "# note".into() });
             }
@@ -252,8 +258,8 @@ fn build(sites: &[Site], exit_mode: u8, mode: RunMode, real_msg: &str) -> Built 
 
 pub fn bounds(tier: Tier) -> Value {
     match tier {
-        Tier::Quick => json!({"sites_per_program": 2, "contexts": 10, "error_kinds": 4, "leading_blank_lines": [0, 1, 2], "exit_on_error_schedules": 4, "run_modes": 3}),
-        Tier::Thorough => json!({"sites_per_program": 3, "contexts": 10, "error_kinds": 4, "leading_blank_lines": [0, 1, 2], "exit_on_error_schedules": 4, "run_modes": 3}),
+        Tier::Quick => json!({"sites_per_program": 2, "contexts": 10, "error_kinds": 4, "leading_lines": ["none", "blank", "blank+comment", "set_error+exit_on_error query"], "exit_on_error_schedules": 4, "run_modes": 3}),
+        Tier::Thorough => json!({"sites_per_program": 3, "contexts": 10, "error_kinds": 4, "leading_lines": ["none", "blank", "blank+comment", "set_error+exit_on_error query"], "exit_on_error_schedules": 4, "run_modes": 3}),
     }
 }
 
@@ -436,7 +442,7 @@ pub fn worker(w: &mut Worker) {
             if kind == 4 && (ctx == Ctx::Top || ctx == Ctx::Included) {
                 continue; // the same as the ScriptCommand context
             }
-            for blanks in 0..3u8 {
+            for blanks in 0..4u8 {
                 variants.push(Site { ctx, kind, blanks });
             }
         }
@@ -463,7 +469,7 @@ pub fn worker(w: &mut Worker) {
         }
     }
     if tier == Tier::Thorough {
-        let small: Vec<Site> = variants.iter().filter(|s| s.blanks == 1 && s.kind != 1).cloned().collect();
+        let small: Vec<Site> = variants.iter().filter(|s| (s.blanks == 1 && s.kind != 1) || (s.blanks == 3 && s.kind == 0)).cloned().collect();
         for a in &small {
             for b in &small {
                 for c in &small {
@@ -507,7 +513,7 @@ pub fn crash_sig(_case: &Value, kind: &str) -> String {
     kind.to_string()
 }
 
-pub const RULE: &str = "programs: every sequence of 1..k error sites, each site = context {top level, function body, for body, while body, if branch, else branch, inside a script-implemented library command, included file, a function called from a loop, a loop inside a function} x error kind {trigger_error, assert_error with a message containing a space, a real failing command, a message containing the literal text ${x}, a failing script-implemented command} x 0..2 blank/comment lines in front; each site assigns an output variable and is followed by get_last_error / get_last_error_line / get_last_error_source probes; x exit_on_error schedule {never, on from the start, turned on after the first site, on then off before the first site} x run mode {text, file, file that includes the file with the sites}. Oracle (error protocol): output variable 'false'; message, 1-based line and source file of the instruction the runner was executing (the caller's line for the script-implemented command, the included file's own path and line for included code); the latest error wins; the script reaches its last line and the enclosing blocks go on as written (a for body with two elements and a while body run twice, the else branch of an if whose then-branch failed does not run); under exit_on_error the run fails with Runtime(message, line, source) of the first error after it was turned on. evaluations = programs run";
+pub const RULE: &str = "programs: every sequence of 1..k error sites, each site = context {top level, function body, for body, while body, if branch, else branch, inside a script-implemented library command, included file, a function called from a loop, a loop inside a function} x error kind {trigger_error, assert_error with a message containing a space, a real failing command, a message containing the literal text ${x}, a failing script-implemented command} x lines in front of the site {none, a blank line, blank + comment, `set_error` + an `exit_on_error` query (statements that touch the error record and the mode without being errors)}; each site assigns an output variable and is followed by get_last_error / get_last_error_line / get_last_error_source probes; x exit_on_error schedule {never, on from the start, turned on after the first site, on then off before the first site} x run mode {text, file, file that includes the file with the sites}. Oracle (error protocol): output variable 'false'; message, 1-based line and source file of the instruction the runner was executing (the caller's line for the script-implemented command, the included file's own path and line for included code); the latest error wins; the script reaches its last line and the enclosing blocks go on as written (a for body with two elements and a while body run twice, the else branch of an if whose then-branch failed does not run); under exit_on_error the run fails with Runtime(message, line, source) of the first error after it was turned on. evaluations = programs run";
 pub const ASSUMPTIONS: &[&str] = &["the message of the real failing command is taken from running that command alone (differential)", "failing commands are not placed in condition position (an error raised by a condition is outside the property)"];
 pub const EXHAUSTIVE: bool = true;
 pub const WALL_CAP_S: (u64, u64) = (55, 1500);
